@@ -182,10 +182,12 @@ Freeze ==
   /\ Log([a |-> "Freeze"])
   /\ UNCHANGED <<arch, ctx, hooks, modes, saved, pc>>
 
-OptStep ==
+\* via: how the update reaches the parameter - in place under no_grad, through `.data` (the tensor's version counter does not
+\* move), or by copying new values into it.  All three give the module new float weights.
+OptStep(via) ==
   /\ pc = "quantized" /\ Bound /\ ctx = <<>>
   /\ mods' = [i \in 1..Len(mods) |-> IF mods[i].frozen THEN mods[i] ELSE [mods[i] EXCEPT !.wver = @ + 1]]
-  /\ Log([a |-> "OptStep"])
+  /\ Log([a |-> "OptStep", via |-> via])
   /\ UNCHANGED <<arch, ctx, hooks, modes, saved, pc>>
 
 (* ---- serialisation -------------------------------------------------------------------------------- *)
@@ -250,7 +252,7 @@ ActCalibBatch == On("CalibBatch") /\ \E b \in Batches : CalibBatch(b)
 ActRaiseIn    == On("RaiseIn") /\ \E b \in Batches, k \in 1..3 : RaiseIn(b, k)
 ActExitCalib  == On("ExitCalib") /\ ExitCalib
 ActFreeze     == On("Freeze") /\ Freeze
-ActOptStep    == On("OptStep") /\ OptStep
+ActOptStep    == On("OptStep") /\ \E v \in {"inplace", "data", "copy"} : OptStep(v)
 ActDeepCopy   == On("DeepCopy") /\ DeepCopy
 ActToDevice   == On("ToDevice") /\ ToDevice
 ActLibCall    == On("LibCall") /\ LibCall
